@@ -300,7 +300,12 @@ func suiteV12(c *vctx) {
 			// the login through the agent
 			ok, _, _, _ := a.iface.Authenticate(u, p)
 			// give a queued upgrade the chance to run on the otherwise idle agent
-			deadline := time.Now().Add(400 * time.Millisecond)
+			// (generous when the rewrite is due: the machine may be busy; the loop ends as soon as it is seen)
+			wait := 400 * time.Millisecond
+			if ok && upgRef && mode == "local" && xdev == "" && !(weakPolicy && u == "bob") {
+				wait = 15 * time.Second
+			}
+			deadline := time.Now().Add(wait)
 			for time.Now().Before(deadline) {
 				a.iface.Check()
 				if dirDigest(a.dirPath) != preDigest {
@@ -327,7 +332,11 @@ func suiteV12(c *vctx) {
 				_, _, mpidBefore, _, _ := recFieldsOf(mBefore)
 				time.Sleep(120 * time.Millisecond)
 				_, mAfter, mpid, _, _ := recFields(master.dirPath, u)
-				for w := 0; w < 20 && upgRef && mpidBefore != uint(dflt) && mpid != uint(dflt); w++ { // idle: give it time
+				patience := 20
+				if mpidBefore != 0 && !(weakPolicy && u == "bob") {
+					patience = 600 // the rewrite is due: a busy machine gets 15 s, the loop ends as soon as it is seen
+				}
+				for w := 0; w < patience && upgRef && mpidBefore != uint(dflt) && mpid != uint(dflt); w++ { // idle: give it time
 					time.Sleep(25 * time.Millisecond)
 					_, mAfter, mpid, _, _ = recFields(master.dirPath, u)
 				}
